@@ -32,6 +32,24 @@ def minify_lib(src, config, keep_file=None):
     return L, out
 
 
+def comments_problem(rin, rout):
+    """The comments of the output against those of the input: the (at most two) header comments come first, verbatim; whatever else
+    is a comment in the output must be one of the input's later comments, verbatim and in order (the statements allow later comments
+    to be dropped, they do not require it); anything else means code turned into a comment.  -> problem text or None"""
+    hdr = header_comments(rin)[:2]
+    cin = [t.raw for t in rin if t.kind == 'comment']
+    cout = [t.raw for t in rout if t.kind == 'comment']
+    for k, h in enumerate(hdr):
+        if k >= len(cout) or cout[k] != h.raw:
+            return 'header comment %d is %s in the output (%r)' % (k + 1, 'missing' if k >= len(cout) else 'changed', h.raw[:40])
+    # the header comments are the first comments of the input
+    later = iter(cin[len(hdr):])
+    for c in cout[len(hdr):]:
+        if not any(c == x for x in later):
+            return 'output contains the comment %r, which is not one of the input\'s later comments in order' % (c[:40],)
+    return None
+
+
 def header_comments(toks):
     """The comments that precede any code (reference tokens)."""
     out = []
@@ -79,9 +97,9 @@ def align(src, out, scopes=None):
             len(sout), len(sin), extra.raw[:30]), prev), pairs, {}
     # comments in the output: only the (at most two) header comments, at the top
     hdr = header_comments(rin)[:2]
-    out_comments = [t for t in rout if t.kind == 'comment']
-    if len(out_comments) > len(hdr):
-        return ('comment', 'output contains %d comments, only %d header comments may remain' % (len(out_comments), len(hdr)), None), pairs, {}
+    cp = comments_problem(rin, rout)
+    if cp:
+        return ('comment', cp, None), pairs, {}
     # line scopes
     if scopes:
         for (i, j, kind) in scopes:
